@@ -23,12 +23,13 @@ type GenOpts struct {
 	Outermost   string // when set, the stack's first policy is of this kind
 	MuteOneIn   int    // one instance in N registers only a random subset of its listeners (0 = all register everything)
 	PlainOneIn  int    // one instance in N is built through its package's convenience constructor (0 = never)
+	ReuseOneIn  int    // one copying builder in N is used again after Build: other listeners registered, a second policy built (0 = never)
 }
 
 var AllKinds = []string{"retry", "retry", "breaker", "fallback", "fallback", "cache", "bulkhead", "timeout", "hedge", "limiter"}
 
 func DefaultOpts() GenOpts {
-	return GenOpts{Kinds: AllKinds, MaxPool: 5, MaxStack: 5, MaxSteps: 6, MaxScript: 6, FireOneIn: 10, Standalone: true, CancelOneIn: 8, MuteOneIn: 3, PlainOneIn: 5}
+	return GenOpts{Kinds: AllKinds, MaxPool: 5, MaxStack: 5, MaxSteps: 6, MaxScript: 6, FireOneIn: 10, Standalone: true, CancelOneIn: 8, MuteOneIn: 3, PlainOneIn: 5, ReuseOneIn: 4}
 }
 
 func genErrName(t *rapid.T, rich bool, label string) string {
@@ -281,6 +282,16 @@ func GenScenario(t *rapid.T, o GenOpts) Scenario {
 					sc.Pool[i].Mute = append(sc.Pool[i].Mute, name)
 				}
 			}
+		}
+	}
+	// builders used as templates: the first policy built must keep the listeners it was built with
+	if o.ReuseOneIn > 0 {
+		for i := range sc.Pool {
+			k := sc.Pool[i].Kind
+			if sc.Pool[i].Plain || !(k == "retry" || k == "fallback" || k == "timeout" || k == "hedge") {
+				continue
+			}
+			sc.Pool[i].Reuse = rapid.IntRange(1, o.ReuseOneIn).Draw(t, "reuse") == 1
 		}
 	}
 	targets := func(kind string) []int {
